@@ -19,6 +19,8 @@ pub enum Exp {
     Aff((i64, i64), Vec<(i64, i64)>),
     /// b_n/b_d + s * sqrt(q_n/q_d)
     AffSq((i64, i64), i64, (i64, i64)),
+    /// s * infinity (IEEE 754: a float series may hold infinities, MapOps.tla XSub / XPct)
+    Inf(i64),
 }
 
 impl Exp {
@@ -36,6 +38,7 @@ impl Exp {
             7 => Exp::SqProd(int(1), (2..a.len()).step_by(2).map(|i| (int(i), int(i + 1))).collect()),
             8 => Exp::Aff((int(1), int(2)), (3..a.len()).step_by(2).map(|i| (int(i), int(i + 1))).collect()),
             9 => Exp::AffSq((int(1), int(2)), int(3), (int(4), int(5))),
+            10 => Exp::Inf(int(1)),
             k => tool_error(&format!("unknown expectation kind {k}")),
         }
     }
@@ -62,6 +65,7 @@ impl Exp {
             Exp::SqProd(s, fs) => Some(*s as f64 * fs.iter().map(|(n, d)| *n as f64 / *d as f64).product::<f64>().sqrt()),
             Exp::AffSq(b, s, q) => Some(b.0 as f64 / b.1 as f64 + *s as f64 * (q.0 as f64 / q.1 as f64).sqrt()),
             Exp::Aff(b, fs) => Some(b.0 as f64 / b.1 as f64 + fs.iter().map(|(n, d)| *n as f64 / *d as f64).product::<f64>()),
+            Exp::Inf(s) => Some(if *s > 0 { f64::INFINITY } else { f64::NEG_INFINITY }),
             _ => None,
         }
     }
@@ -236,6 +240,10 @@ pub fn satisfies(exp: &Exp, obs: Obs, tol: f64, null_as_zero: bool) -> Result<f6
             Obs::F(g) if g == *v as f64 => Ok(0.0),
             _ => fail(),
         },
+        Exp::Inf(s) => match obs {
+            Obs::F(g) if g.is_infinite() && (g > 0.0) == (*s > 0) => Ok(0.0),
+            _ => fail(),
+        },
         Exp::Exact(..) | Exp::Q(..) | Exp::Sq(..) | Exp::SqProd(..) | Exp::Aff(..) | Exp::AffSq(..) => {
             let want = exp.value().unwrap();
             let t = if matches!(exp, Exp::Exact(..)) { exact_tol } else { tol };
@@ -276,6 +284,10 @@ pub fn satisfies_unit(exp: &Exp, obs: Obs, un: Unit, null_as_zero: bool) -> Resu
         Exp::Null => match obs {
             Obs::Null => Ok(0.0),
             Obs::I(0) if null_as_zero => Ok(0.0),
+            _ => fail(None),
+        },
+        Exp::Inf(s) => match obs {
+            Obs::F(g) if g.is_infinite() && (g > 0.0) == (*s > 0) => Ok(0.0),
             _ => fail(None),
         },
         _ => {
@@ -391,6 +403,11 @@ pub fn enc_vec<T: InElem>(xs: &[i64]) -> Vec<T> {
 }
 pub fn enc_vec_unit<T: InElem>(xs: &[i64], u: f64) -> Vec<T> {
     xs.iter().map(|&v| T::enc_unit(v, u)).collect()
+}
+/// the float encoding of a series with its nulls written as a NaN whose sign bit is set (what
+/// -NaN, 0.0/0.0 or inf-inf give at run time): the same null as NaN (Casts.tla NEGNAN)
+pub fn enc_vec_negnan(xs: &[i64]) -> Vec<f64> {
+    xs.iter().map(|&v| if v == NULL { -f64::NAN } else { v as f64 }).collect()
 }
 pub fn max_abs(xs: &[i64]) -> i64 {
     xs.iter().filter(|&&v| v != NULL).map(|v| v.abs()).fold(0, |a, b| if b > a { b } else { a })
